@@ -88,8 +88,11 @@ LockRows ==
   {Row("lock_acquire", "free", f, "both", "any", [impl |-> i, via |-> v], Acq(f)) :
      f \in {0, 1}, i \in Impls, v \in {"acquire", "aenter"}}
 
+\* pinned behaviour: SemaphoreAdapter (a Semaphore created outside an event loop) does not pass
+\* fast_acquire on to the backend semaphore, so it always takes the slow path (it yields)
 SemRows ==
-  {Row("sem_acquire", "avail", f, "both", "any", [impl |-> i, via |-> v, init |-> n], Acq(f)) :
+  {Row("sem_acquire", "avail", f, "both", "any", [impl |-> i, via |-> v, init |-> n],
+       Acq(IF i = "adapter" THEN 0 ELSE f)) :
      f \in {0, 1}, i \in Impls, v \in {"acquire", "aenter"}, n \in {1, 2}}
 
 \* total tokens / tokens already borrowed by somebody else
@@ -192,103 +195,107 @@ FirstFalse(p, s) == IF \E i \in DOMAIN s : ~Pred(p, s[i])
 
 RowsOfFn(fn) ==
   CASE fn = "accumulate" ->
-       \* accumulate(s, initial=init)   (init = -1: no initial)
+         \* accumulate(s, initial=init)   (init = -1: no initial)
          {It("accumulate", [s |-> s, init |-> i, kind |-> k, emp |-> B(i = -1 /\ s = <<>>)], k,
-        Len(s) + 1, 0, B(i # -1), B(i = -1 /\ s = <<>>), TRUE) : s \in Ss, i \in {-1, 5, 0}, k \in Kinds}
+            Len(s) + 1, 0, B(i # -1), B(i = -1 /\ s = <<>>), TRUE) : s \in Ss, i \in {-1, 5, 0}, k \in Kinds}
     [] fn = "batched" ->
+         \* the trailing checkpoint runs whenever the LAST batch is empty (length divisible by n)
          {It("batched", [s |-> s, n |-> n, kind |-> k, emp |-> B(s = <<>>)], k,
-        Len(s) + 1, 0, 0, B(s = <<>>), TRUE) : s \in Ss, n \in {1, 2}, k \in Kinds}
+            Len(s) + 1, 0, 0, B(Len(s) % n = 0), TRUE) : s \in Ss, n \in {1, 2}, k \in Kinds}
     [] fn = "chain" ->
-       \* chain(*ss): the outer tuple is synchronous; the inner iterables are of the given kind
+         \* chain(*ss): the outer tuple is synchronous; the inner iterables are of the given kind
          {It("chain", [ss |-> ss, kind |-> k, emp |-> B(AllEmpty(ss))], k,
-        SumLen1(ss), Len(ss) + 1, 0, B(AllEmpty(ss)), TRUE) : ss \in SSs, k \in Kinds}
+            SumLen1(ss), Len(ss) + 1, 0, B(AllEmpty(ss)), TRUE) : ss \in SSs, k \in Kinds}
     [] fn = "chain_from_iterable" ->
-       \* chain.from_iterable(ss): the outer iterable is of the given kind, the inner ones are lists
+         \* chain.from_iterable(ss): the outer iterable is of the given kind, the inner ones are lists
          {It("chain_from_iterable", [ss |-> ss, kind |-> k, emp |-> B(AllEmpty(ss))], k,
-        Len(ss) + 1, SumLen1(ss), 0, B(AllEmpty(ss)), TRUE) : ss \in SSs, k \in Kinds}
+            Len(ss) + 1, SumLen1(ss), 0, B(AllEmpty(ss)), TRUE) : ss \in SSs, k \in Kinds}
     [] fn = "combinations" ->
          {It("combinations", [s |-> s, r |-> r, kind |-> k, emp |-> B(Choose(Len(s), r) = 0)], k,
-        Len(s) + 1, Choose(Len(s), r) + 1, 0, 0, TRUE) : s \in Ss, r \in 0..2, k \in Kinds}
+            Len(s) + 1, Choose(Len(s), r) + 1, 0, 0, TRUE) : s \in Ss, r \in 0..2, k \in Kinds}
     [] fn = "combinations_with_replacement" ->
          {It("combinations_with_replacement", [s |-> s, r |-> r, kind |-> k, emp |-> B(MultiChoose(Len(s), r) = 0)], k,
-        Len(s) + 1, MultiChoose(Len(s), r) + 1, 0, 0, TRUE) : s \in Ss, r \in 0..2, k \in Kinds}
+            Len(s) + 1, MultiChoose(Len(s), r) + 1, 0, 0, TRUE) : s \in Ss, r \in 0..2, k \in Kinds}
     [] fn = "compress" ->
          {LET nd == Len(s)
-         ns == Len(sel)
-         none == ~ \E i \in 1..Min(nd, ns) : sel[i] # 0
-     IN It("compress", [s |-> s, sel |-> sel, kind |-> k, emp |-> B(none)], k,
-           IF nd <= ns THEN 2 * nd + 1 ELSE 2 * ns + 2, 0, 0, B(none), TRUE) :
-       s \in Ss, sel \in {<<>>, <<1>>, <<0>>, <<0, 0, 0>>, <<1, 0, 1>>}, k \in Kinds}
+            ns == Len(sel)
+            none == ~ \E i \in 1..Min(nd, ns) : sel[i] # 0
+            IN It("compress", [s |-> s, sel |-> sel, kind |-> k, emp |-> B(none)], k,
+            IF nd <= ns THEN 2 * nd + 1 ELSE 2 * ns + 2, 0, 0, B(none), TRUE) :
+            s \in Ss, sel \in {<<>>, <<1>>, <<0>>, <<0, 0, 0>>, <<1, 0, 1>>}, k \in Kinds}
     [] fn = "count" ->
          {It("count", [start |-> st, step |-> d, k |-> n, kind |-> "none", emp |-> 0], "none",
-        0, 0, n, 0, FALSE) : st \in {0, 3}, d \in {1, 0}, n \in {1, 3}}
+            0, 0, n, 0, FALSE) : st \in {0, 3}, d \in {1, 0}, n \in {1, 3}}
     [] fn = "cycle" ->
          {IF s = <<>>
-       THEN It("cycle", [s |-> s, k |-> 0, kind |-> k, emp |-> 1], k, 1, 0, 0, 1, TRUE)
-       ELSE It("cycle", [s |-> s, k |-> n, kind |-> k, emp |-> 0], k,
-               Min(n, Len(s)) + B(n > Len(s)), 0, 0, Max(n - Len(s), 0), FALSE) :
-       s \in Ss, n \in {1, 7}, k \in Kinds}
+            THEN It("cycle", [s |-> s, k |-> 0, kind |-> k, emp |-> 1], k, 1, 0, 0, 1, TRUE)
+            ELSE It("cycle", [s |-> s, k |-> n, kind |-> k, emp |-> 0], k,
+            Min(n, Len(s)) + B(n > Len(s)), 0, 0, Max(n - Len(s), 0), FALSE) :
+            s \in Ss, n \in {1, 7}, k \in Kinds}
     [] fn = "dropwhile" ->
          {LET all == \A i \in DOMAIN s : Pred(p, s[i])
-     IN It("dropwhile", [p |-> p, s |-> s, kind |-> k, emp |-> B(all)], k,
-           Len(s) + 1, 0, 0, B(all), TRUE) : p \in Preds, s \in Ss, k \in Kinds}
+            IN It("dropwhile", [p |-> p, s |-> s, kind |-> k, emp |-> B(all)], k,
+            Len(s) + 1, 0, 0, B(all), TRUE) : p \in Preds, s \in Ss, k \in Kinds}
     [] fn = "filterfalse" ->
          {LET all == \A i \in DOMAIN s : Pred(p, s[i])
-     IN It("filterfalse", [p |-> p, s |-> s, kind |-> k, emp |-> B(all)], k,
-           Len(s) + 1, 0, 0, B(all), TRUE) : p \in Preds, s \in Ss, k \in Kinds}
+            IN It("filterfalse", [p |-> p, s |-> s, kind |-> k, emp |-> B(all)], k,
+            Len(s) + 1, 0, 0, B(all), TRUE) : p \in Preds, s \in Ss, k \in Kinds}
     [] fn = "groupby" ->
          {It("groupby", [s |-> s, key |-> ky, kind |-> k, emp |-> B(s = <<>>)], k,
-        Len(s) + 1, 0, 0, B(s = <<>>), TRUE) : s \in Ss, ky \in {"none", "mod2"}, k \in Kinds}
+            Len(s) + 1, 0, 0, B(s = <<>>), TRUE) : s \in Ss, ky \in {"none", "mod2"}, k \in Kinds}
     [] fn = "islice" ->
          {IF ITrivial(args)
-       THEN It("islice", [s |-> s, args |-> args, kind |-> k, emp |-> 1], k, 0, 0, 0, 1, TRUE)
-       ELSE It("islice", [s |-> s, args |-> args, kind |-> k, emp |-> B(IEmpty(Len(s), args))], k,
-               IPulls(Len(s), args), 0, 0, B(IEmpty(Len(s), args)), TRUE) :
-       s \in Ss, args \in IsliceArgs, k \in Kinds}
+            THEN It("islice", [s |-> s, args |-> args, kind |-> k, emp |-> 1], k, 0, 0, 0, 1, TRUE)
+            ELSE It("islice", [s |-> s, args |-> args, kind |-> k, emp |-> B(IEmpty(Len(s), args))], k,
+            IPulls(Len(s), args), 0, 0, B(IEmpty(Len(s), args)), TRUE) :
+            s \in Ss, args \in IsliceArgs, k \in Kinds}
     [] fn = "pairwise" ->
          {It("pairwise", [s |-> s, kind |-> k, emp |-> B(Len(s) < 2)], k,
-        Len(s) + 1, 0, 0, B(Len(s) < 2), TRUE) : s \in Ss, k \in Kinds}
+            Len(s) + 1, 0, 0, B(Len(s) < 2), TRUE) : s \in Ss, k \in Kinds}
     [] fn = "permutations" ->
-       \* r = -1: r omitted
+         \* r = -1: r omitted
          {LET rr == IF r = -1 THEN Len(s) ELSE r
-     IN It("permutations", [s |-> s, r |-> r, kind |-> k, emp |-> B(Perm(Len(s), rr) = 0)], k,
-           Len(s) + 1, Perm(Len(s), rr) + 1, 0, 0, TRUE) : s \in Ss, r \in -1..2, k \in Kinds}
+            IN It("permutations", [s |-> s, r |-> r, kind |-> k, emp |-> B(Perm(Len(s), rr) = 0)], k,
+            Len(s) + 1, Perm(Len(s), rr) + 1, 0, 0, TRUE) : s \in Ss, r \in -1..2, k \in Kinds}
     [] fn = "product" ->
          {LET cnt == Pow(ProdLen(ss), rep)
-     IN It("product", [ss |-> ss, rep |-> rep, kind |-> k, emp |-> B(cnt = 0)], k,
-           SumLen1(ss), cnt + 1, 0, 0, TRUE) : ss \in SSs, rep \in 0..2, k \in Kinds}
+            IN It("product", [ss |-> ss, rep |-> rep, kind |-> k, emp |-> B(cnt = 0)], k,
+            SumLen1(ss), cnt + 1, 0, 0, TRUE) : ss \in SSs, rep \in 0..2, k \in Kinds}
     [] fn = "repeat" ->
-       \* repeat(x, times)  (tnone = 1: times omitted, infinite: a prefix of k elements)
+         \* repeat(x, times)  (tnone = 1: times omitted, infinite: a prefix of k elements)
          ({It("repeat", [x |-> 7, times |-> 0, tnone |-> 1, k |-> 2, kind |-> "none", emp |-> 0], "none",
-        0, 0, 0, 2, FALSE)}) \cup
+            0, 0, 0, 2, FALSE)}) \cup
          ({It("repeat", [x |-> 7, times |-> t, tnone |-> 0, k |-> 0, kind |-> "none", emp |-> B(t <= 0)], "none",
-        0, 0, Max(t, 0), B(t <= 0), TRUE) : t \in {-2, 0, 1, 3}})
+            0, 0, Max(t, 0), B(t <= 0), TRUE) : t \in {-2, 0, 1, 3}})
     [] fn = "starmap" ->
-       \* starmap(f, ss): outer iterable of the given kind, argument iterables are lists
+         \* starmap(f, ss): outer iterable of the given kind, argument iterables are lists
          {It("starmap", [ss |-> ss, kind |-> k, emp |-> B(ss = <<>>)], k,
-        Len(ss) + 1, SumLen1(ss), 0, B(ss = <<>>), TRUE) :
-       ss \in {<<>>, <<<<>>>>, <<<<1>>>>, <<<<1, 2>>, <<>>, <<3>>>>}, k \in Kinds}
+            Len(ss) + 1, SumLen1(ss), 0, B(ss = <<>>), TRUE) :
+            ss \in {<<>>, <<<<>>>>, <<<<1>>>>, <<<<1, 2>>, <<>>, <<3>>>>}, k \in Kinds}
     [] fn = "tee" ->
-       \* tee(s, n): consumer `which` is traversed fully; after = 1: another consumer was traversed
-       \* before, so every link is filled (no lock, no pull: cic ... csc per element)
+         \* tee(s, n): consumer `which` is traversed fully; after = 1: another consumer was traversed
+         \* before, so every link is filled (no lock, no pull: cic ... csc per element)
          {IF af = 0
-       THEN It("tee", [s |-> s, n |-> n, which |-> w, after |-> 0, kind |-> k, emp |-> B(s = <<>>)], k,
-               Len(s) + 1, 0, Len(s) + 1, B(s = <<>>), TRUE)
-       ELSE It("tee", [s |-> s, n |-> n, which |-> w, after |-> 1, kind |-> k, emp |-> B(s = <<>>)], "none",
-               0, 0, Len(s), B(s = <<>>), TRUE) :
-       s \in Ss, n \in {1, 2, 3}, w \in {1, 2}, af \in {0, 1}, k \in Kinds}
+            THEN It("tee", [s |-> s, n |-> n, which |-> w, after |-> 0, kind |-> k, emp |-> B(s = <<>>)], k,
+            Len(s) + 1, 0, Len(s) + 1, B(s = <<>>), TRUE)
+            ELSE It("tee", [s |-> s, n |-> n, which |-> w, after |-> 1, kind |-> k, emp |-> B(s = <<>>)], "none",
+            0, 0, Len(s), B(s = <<>>), TRUE) :
+            s \in Ss, n \in {1, 2, 3}, w \in {1, 2}, af \in {0, 1}, k \in Kinds}
     [] fn = "takewhile" ->
          {LET f == FirstFalse(p, s)
-         e == s = <<>> \/ f = 1
-     IN It("takewhile", [p |-> p, s |-> s, kind |-> k, emp |-> B(e)], k,
-           IF f = 0 THEN Len(s) + 1 ELSE f, 0, 0, B(e), TRUE) : p \in Preds, s \in Ss, k \in Kinds}
+            e == s = <<>> \/ f = 1
+            IN It("takewhile", [p |-> p, s |-> s, kind |-> k, emp |-> B(e)], k,
+            IF f = 0 THEN Len(s) + 1 ELSE f, 0, 0, B(e), TRUE) : p \in Preds, s \in Ss, k \in Kinds}
     [] fn = "zip_longest" ->
          {IF ss = <<>>
-       THEN It("zip_longest", [ss |-> ss, kind |-> k, emp |-> 1], k, 0, 0, 0, 1, TRUE)
-       ELSE It("zip_longest", [ss |-> ss, kind |-> k, emp |-> B(AllEmpty(ss))], k,
-               SumLen1(ss), 0, 0, B(AllEmpty(ss)), TRUE) : ss \in SSs, k \in Kinds}
+            THEN It("zip_longest", [ss |-> ss, kind |-> k, emp |-> 1], k, 0, 0, 0, 1, TRUE)
+            ELSE It("zip_longest", [ss |-> ss, kind |-> k, emp |-> B(AllEmpty(ss))], k,
+            SumLen1(ss), 0, 0, B(AllEmpty(ss)), TRUE) : ss \in SSs, k \in Kinds}
 
-AllFns == {"accumulate", "batched", "chain", "chain_from_iterable", "combinations", "combinations_with_replacement", "compress", "count", "cycle", "dropwhile", "filterfalse", "groupby", "islice", "pairwise", "permutations", "product", "repeat", "starmap", "tee", "takewhile", "zip_longest"}
+AllFns == {"accumulate", "batched", "chain", "chain_from_iterable", "combinations",
+           "combinations_with_replacement", "compress", "count", "cycle", "dropwhile", "filterfalse",
+           "groupby", "islice", "pairwise", "permutations", "product", "repeat", "starmap", "tee",
+           "takewhile", "zip_longest"}
 ASSUME Fns \subseteq AllFns
 
 AllIterRows == UNION {RowsOfFn(fn) : fn \in Fns}
